@@ -184,4 +184,20 @@ UpdateDataRef(x, lv, D, k) ==
         \* <<final position (post-block), hash>>
         nadd |-> [i \in 1..Len(adds) |-> <<NodePos(adds[i]), adds[i].hash>>] ]
 
+(***************************************************************************)
+(* What a partial forest that remembers the leaves C must and may store    *)
+(* (C09): a relation, not a function of the abstract state.                *)
+(***************************************************************************)
+RootSet(x) == {RootPos(x, h) : h \in Heights(x)}
+
+\* must be stored: the roots, the remembered leaves and, for every remembered
+\* leaf, the siblings along its path (so that any subset can be proven)
+StoredLower(x, nds, C) ==
+  RootSet(x) \cup {PosOfIn(nds, c) : c \in C}
+             \cup UNION {ProofPosSet(x, {PosOfIn(nds, c)}) : c \in C}
+
+\* may be stored in addition: the ancestors of the remembered leaves
+StoredUpper(x, nds, C) ==
+  StoredLower(x, nds, C) \cup Anc(x, {PosOfIn(nds, c) : c \in C})
+
 =============================================================================
